@@ -10,8 +10,8 @@ package checks
 // recomputed from the rows.
 
 import (
-	"os"
 	"fmt"
+	"os"
 	"sort"
 	"strings"
 
